@@ -198,7 +198,7 @@ def render : JsExpr → List Piece
   | .call1 .ceil a => [.fixed b!"Math.ceil("] ++ render a ++ [.fixed b!")"]
   | .call1 .round a => [.fixed b!"Math.round("] ++ render a ++ [.fixed b!")"]
   | .call1 .length a => [.fixed b!"("] ++ render a ++ [.fixed b!").length"]
-  | .call1 .nonNull a => render a ++ [.fixed b!"!= null"]
+  | .call1 .nonNull a => [.fixed b!"("] ++ render a ++ [.fixed b!" != null)"]
   | .call2 .min a b => [.fixed b!"Math.min("] ++ render a ++ [.fixed b!","] ++ render b ++ [.fixed b!")"]
   | .call2 .max a b => [.fixed b!"Math.max("] ++ render a ++ [.fixed b!","] ++ render b ++ [.fixed b!")"]
   | .loopFirst idx => [.fixed b!"(", .ident idx, .fixed b!" == 0)"]
@@ -319,7 +319,7 @@ theorem tbl_floor : partsOf sFloor 1 = some [.text b!"Math.floor(", .arg 0, .tex
 theorem tbl_ceiling : partsOf sCeiling 1 = some [.text b!"Math.ceil(", .arg 0, .text b!")"] := rfl
 theorem tbl_round : partsOf sRound 1 = some [.text b!"Math.round(", .arg 0, .text b!")"] := rfl
 theorem tbl_length : partsOf sLength 1 = some [.text b!"(", .arg 0, .text b!").length"] := rfl
-theorem tbl_isNonnull : partsOf sIsNonnull 1 = some [.arg 0, .text b!"!= null"] := rfl
+theorem tbl_isNonnull : partsOf sIsNonnull 1 = some [.text b!"(", .arg 0, .text b!" != null)"] := rfl
 theorem tbl_min : partsOf sMin 2 = some [.text b!"Math.min(", .arg 0, .text b!",", .arg 1, .text b!")"] := rfl
 theorem tbl_max : partsOf sMax 2 = some [.text b!"Math.max(", .arg 0, .text b!",", .arg 1, .text b!")"] := rfl
 
@@ -595,7 +595,7 @@ theorem walkExpr_renders (sc : Scope) :
             split at hf
             · rename_i hn; have := beq_true_eq hn; subst this
               simp only [Option.some.injEq] at hf; subst hf
-              exact func_runs sk o sc p _ _ _ _ tbl_isNonnull ((parts1post_runs sk o sc a _ ra _).cast (by simp [render]))
+              exact func_runs sk o sc p _ _ _ _ tbl_isNonnull ((parts1_runs sk o sc a _ ra _ _).cast (by simp [render]))
             · split at hf
               · rename_i hn; have := beq_true_eq hn; subst this
                 simp only [Option.some.injEq] at hf; subst hf
